@@ -125,6 +125,20 @@ def rightmultiplyany11 (A M : Mat K) : Mat K := ⟨1, M.cols, fun _ j => M.e 0 j
 def multTransposedMatrix (A : Mat K) : Mat K :=
   ⟨A.cols, A.cols, fun i j => sumLoop A.rows (fun k => A.e k i * A.e k j)⟩
 
+/-- DenseMatrixHelp::multAssign: `ret[i] = 0; ret[i] += matrix[i][j]*x[j]` -/
+def multAssign (A : Mat K) (x : Nat → K) : Nat → K := fun i => sumLoop A.cols (fun j => A.e i j * x j)
+
+/-- FMatrixHelp::multAssignTransposed: `ret[i] = 0; ret[i] += matrix[j][i]*x[j]` -/
+def multAssignT (A : Mat K) (x : Nat → K) : Nat → K := fun i => sumLoop A.rows (fun j => A.e j i * x j)
+
+/-! ### conversion between representations -/
+
+/-- `FieldMatrix / DynamicMatrix = other representation` (DenseMatrixAssigner): rows are copied; a diagonal matrix is
+assigned as `dense = 0; dense[i][i] = diagonal[i]` -/
+def assignFrom : Rep K → Mat K
+  | .diag n d => forN n (fun i (M : Mat K) => ⟨M.rows, M.cols, fun a b => if a = i ∧ b = i then d i else M.e a b⟩) ⟨n, n, fun _ _ => 0⟩
+  | r => r.toFull
+
 /-! ### transposition -/
 
 /-- `FieldMatrix::transposed`, `DynamicMatrix::transposed`: `AT[j][i] = this[i][j]` -/
